@@ -945,6 +945,8 @@ impl<'a> RepositoryUpdate<'a> {
         //     temp file and replace it with something new and we will now
         //     copy that to the final location.
 
+        #[cfg(routinator_verif)]
+        crate::verif::kill_point("rrdp.snapshot.before-remove");
         if let Err(err) = fs::remove_file(self.path.as_ref()) {
             if !matches!(err.kind(), io::ErrorKind::NotFound) {
                 error!(
@@ -956,6 +958,8 @@ impl<'a> RepositoryUpdate<'a> {
             }
         }
         drop(archive);
+        #[cfg(routinator_verif)]
+        crate::verif::kill_point("rrdp.snapshot.before-rename");
         if let Err(err) = fs::rename(path.as_ref(), self.path.as_ref()) {
             error!(
                 "Fatal: Failed to move new RRDP repository file {} to {}: {}",
@@ -964,6 +968,8 @@ impl<'a> RepositoryUpdate<'a> {
             return Err(RunFailed::fatal())
         }
 
+        #[cfg(routinator_verif)]
+        crate::verif::kill_point("rrdp.snapshot.after-rename");
         self.log.debug(format_args!("snapshot update completed."));
         Ok(true)
     }
